@@ -69,13 +69,14 @@ var strAxioms = []strAxiom{
 
 // prelude returns the declarations and the relevant axioms for a VC body.
 func prelude(body string) (string, []string) {
+	toks := symbolSet(body)
 	var b strings.Builder
 	b.WriteString(preludeDecls)
 	var used []string
 	for _, ax := range strAxioms {
 		rel := false
 		for _, s := range ax.syms {
-			if containsSym(body, s) {
+			if containsSym(toks, s) {
 				rel = true
 				break
 			}
@@ -89,9 +90,28 @@ func prelude(body string) (string, []string) {
 }
 
 // containsSym: the function symbol occurs applied, e.g. "(sle " (not as part of "slen").
-func containsSym(body, sym string) bool {
-	if strings.HasPrefix(sym, "(") {
-		return strings.Contains(body, sym)
+func containsSym(toks map[string]bool, sym string) bool {
+	return toks[strings.Trim(sym, "( ")]
+}
+
+// symbolSet returns the set of symbols (maximal runs of symbol characters) of an SMT text.
+func symbolSet(text string) map[string]bool {
+	toks := map[string]bool{}
+	start := -1
+	for i := 0; i < len(text); i++ {
+		c := text[i]
+		isSym := c > ' ' && c != '(' && c != ')'
+		if isSym {
+			if start < 0 {
+				start = i
+			}
+		} else if start >= 0 {
+			toks[text[start:i]] = true
+			start = -1
+		}
 	}
-	return strings.Contains(body, "("+sym+" ") || strings.Contains(body, " "+sym+")") || strings.Contains(body, " "+sym+" ")
+	if start >= 0 {
+		toks[text[start:]] = true
+	}
+	return toks
 }
